@@ -1,15 +1,376 @@
-(** Lemmas about the lexer model (Lef/LefLex.v). *)
+(** Lemmas about the lexer model (Lef/LefLex.v).
+
+    Main results, for the repaired position counting (cm = false, byte offsets):
+    - [lex_ok_gen]: every token span and every line start the lexer records is a character boundary of the
+      source, in range, with start <= stop; the stream does not end in LPanic or LFuel; there are at most
+      [length src] tokens.
+    - [lex_no_panic], [lex_terminates] (the latter for both position units).
+    - [slice_bnd]: slicing between two boundaries never panics.
+    The code as found (cm = true) is refuted by [lex_orig_panics]. *)
 From Coq Require Import ZArith List Bool Lia.
-From L21 Require Import Lef.LefDec Lef.LefData Lef.LefLex Lef.LefParse.
+From L21 Require Import Lef.LefDec Lef.LefData Lef.LefLex.
 Import ListNotations.
 Local Open Scope Z_scope.
+Local Arguments cp_at : simpl never.
+Local Arguments adv : simpl never.
 
-(** "VERSION -é ;" *)
+(** "VERSION -Ã© ;" *)
 Definition witness_version : bytes := [86;69;82;83;73;79;78;32;45;195;169;32;59].
-(** "MACRO mé" *)
+(** "MACRO mÃ©" *)
 Definition witness_macro : bytes := [77;65;67;82;79;32;109;195;169].
 
 Lemma lex_orig_panics : snd (lex true witness_version) = LPanic.
 Proof. vm_compute. reflexivity. Qed.
 Lemma lex_fixed_ok : exists ts p l ls, lex false witness_version = (ts, LEof p l ls) /\ length ts = 3%nat.
 Proof. vm_compute. do 4 eexists. split; reflexivity. Qed.
+
+(** * Lists *)
+Lemma app_split {A} : forall (a b c d : list A),
+  a ++ b = c ++ d -> (length a <= length c)%nat -> exists m, c = a ++ m /\ b = m ++ d.
+Proof.
+  induction a as [|x a IH]; intros b c d H L.
+  - exists c. split; [reflexivity | exact H].
+  - destruct c as [|y c]; [simpl in L; lia|].
+    simpl in H. injection H as -> H. simpl in L.
+    destruct (IH b c d H ltac:(lia)) as [m [-> ->]]. exists m. split; reflexivity.
+Qed.
+
+Lemma drop_app : forall (pre rem : bytes), drop (length pre) (pre ++ rem) = Some rem.
+Proof. induction pre as [|x p IH]; intros; simpl; auto. Qed.
+Lemma take_app : forall (mid r : bytes), take (length mid) (mid ++ r) = Some (mid, r).
+Proof. induction mid as [|x m IH]; intros; simpl; auto. rewrite IH. reflexivity. Qed.
+
+(** * Character boundaries *)
+(** byte offset [p] is in range and a character boundary of [src] (Rust `is_char_boundary`) *)
+Definition bnd (src : bytes) (p : Z) : Prop :=
+  exists pre rem, src = pre ++ rem /\ p = Z.of_nat (length pre) /\ starts_on_boundary rem = true.
+
+Lemma bnd_range : forall src p, bnd src p -> 0 <= p <= Z.of_nat (length src).
+Proof. intros src p (pre & rem & -> & -> & _). rewrite app_length. lia. Qed.
+
+Lemma slice_bnd : forall src a b, bnd src a -> bnd src b -> a <= b ->
+  exists s, slice src a b = Some s /\ Z.of_nat (length s) = b - a.
+Proof.
+  intros src a b (pa & ra & Ha & -> & Sa) (pb & rb & Hb & -> & Sb) L.
+  rewrite Ha in Hb. destruct (app_split _ _ _ _ Hb ltac:(lia)) as [m [-> ->]].
+  exists m. unfold slice.
+  replace ((0 <=? Z.of_nat (length pa)) && (Z.of_nat (length pa) <=? Z.of_nat (length (pa ++ m)))) with true
+    by (symmetry; apply andb_true_intro; split; apply Z.leb_le; lia).
+  rewrite Nat2Z.id, Ha, drop_app, Sa.
+  replace (Z.to_nat (Z.of_nat (length (pa ++ m)) - Z.of_nat (length pa))) with (length m)
+    by (rewrite app_length; lia).
+  rewrite take_app, Sb. split; [reflexivity | rewrite app_length; lia].
+Qed.
+
+(** * Consumption: [s = x ++ r] and the position moved by [length x] bytes *)
+Definition moved (s : bytes) (pos : Z) (r : bytes) (p : Z) : Prop :=
+  exists x, s = x ++ r /\ p = pos + Z.of_nat (length x).
+
+Lemma moved_refl : forall s pos, moved s pos s pos.
+Proof. intros. exists []. split; [reflexivity | simpl; lia]. Qed.
+Lemma moved_trans : forall s0 p0 s1 p1 s2 p2, moved s0 p0 s1 p1 -> moved s1 p1 s2 p2 -> moved s0 p0 s2 p2.
+Proof.
+  intros s0 p0 s1 p1 s2 p2 (x & -> & ->) (y & -> & ->). exists (x ++ y).
+  split; [apply app_assoc | rewrite app_length; lia].
+Qed.
+Lemma moved_cons : forall b s pos r p, moved s (pos + 1) r p -> moved (b :: s) pos r p.
+Proof. intros b s pos r p (x & -> & ->). exists (b :: x). split; [reflexivity | simpl length; lia]. Qed.
+Lemma moved_len : forall s pos r p, moved s pos r p -> Z.of_nat (length s) = Z.of_nat (length r) + (p - pos).
+Proof. intros s pos r p (x & -> & ->). rewrite app_length. lia. Qed.
+
+Lemma adv_false : forall b pos, adv false b pos = pos + 1.
+Proof. reflexivity. Qed.
+
+Lemma skip_conts_moved : forall s pos r p, skip_conts false s pos = (r, p) ->
+  moved s pos r p /\ starts_on_boundary r = true.
+Proof.
+  induction s as [|b s IH]; intros pos r p H; simpl in H.
+  - injection H as <- <-. split; [apply moved_refl | reflexivity].
+  - destruct (is_cont b) eqn:C.
+    + rewrite adv_false in H. destruct (IH _ _ _ H) as [M S]. split; [apply moved_cons; exact M | exact S].
+    + injection H as <- <-. split; [apply moved_refl | simpl; rewrite C; reflexivity].
+Qed.
+
+Lemma next_char_moved : forall s pos r p, next_char false s pos = (r, p) ->
+  moved s pos r p /\ starts_on_boundary r = true /\ (s <> [] -> pos < p).
+Proof.
+  intros [|b s] pos r p H; simpl in H.
+  - injection H as <- <-. split; [apply moved_refl|]. split; [reflexivity | congruence].
+  - rewrite adv_false in H. destruct (skip_conts_moved _ _ _ _ H) as [M S].
+    split; [apply moved_cons; exact M|]. split; [exact S|]. intros _.
+    destruct M as (x & _ & ->). lia.
+Qed.
+
+Lemma accept_while_moved : forall pr s pos r p, accept_while false pr s pos = (r, p) ->
+  moved s pos r p /\ starts_on_boundary r = true.
+Proof.
+  induction s as [|b s IH]; intros pos r p H; simpl in H.
+  - injection H as <- <-. split; [apply moved_refl | reflexivity].
+  - destruct (is_cont b) eqn:C.
+    + rewrite adv_false in H. destruct (IH _ _ _ H) as [M S]. split; [apply moved_cons; exact M | exact S].
+    + destruct (pr (cp_at (b :: s))) eqn:Pc.
+      * rewrite adv_false in H. destruct (IH _ _ _ H) as [M S]. split; [apply moved_cons; exact M | exact S].
+      * injection H as <- <-. split; [apply moved_refl | simpl; rewrite C; reflexivity].
+Qed.
+
+(** the first character is consumed when the predicate holds of it *)
+Lemma accept_while_first : forall pr b s pos r p, accept_while false pr (b :: s) pos = (r, p) ->
+  pr (cp_at (b :: s)) = true -> moved s (pos + 1) r p /\ starts_on_boundary r = true.
+Proof.
+  intros pr b s pos r p H Pc. simpl in H.
+  destruct (is_cont b).
+  - rewrite adv_false in H. apply accept_while_moved in H. exact H.
+  - rewrite Pc in H. rewrite adv_false in H. apply accept_while_moved in H. exact H.
+Qed.
+
+(** * One token *)
+(** the lexer's state: [rem] is the rest of [src] at byte offset [pos], on a character boundary *)
+Definition at_pos (src rem : bytes) (pos : Z) : Prop :=
+  exists pre, src = pre ++ rem /\ pos = Z.of_nat (length pre).
+
+Lemma at_pos_moved : forall src rem pos r p, at_pos src rem pos -> moved rem pos r p -> at_pos src r p.
+Proof.
+  intros src rem pos r p (pre & -> & ->) (x & -> & ->). exists (pre ++ x).
+  split; [apply app_assoc | rewrite app_length; lia].
+Qed.
+Lemma at_pos_bnd : forall src rem pos, at_pos src rem pos -> starts_on_boundary rem = true -> bnd src pos.
+Proof. intros src rem pos (pre & -> & ->) S. exists pre, rem. auto. Qed.
+
+Definition tok_ok (src : bytes) (t : token) : Prop :=
+  bnd src (t_start t) /\ bnd src (t_stop t) /\ t_start t <= t_stop t.
+
+Lemma tok_ok_substr : forall src t, tok_ok src t -> exists s, substr src t = Some s.
+Proof.
+  intros src t (A & B & L). destruct (slice_bnd _ _ _ A B L) as (s & E & _). exists s. exact E.
+Qed.
+
+Definition lex1_ok (src rem : bytes) (pos : Z) (r : lex1) : Prop :=
+  match r with
+  | L1None => rem = []
+  | L1Tok t r p l ls =>
+    moved rem pos r p /\ pos < p /\ starts_on_boundary r = true /\ t_start t = pos /\ t_stop t = p
+  | L1Fail _ _ _ => True
+  | L1Panic => False
+  end.
+
+Lemma mk_tok : forall rem pos r p, moved rem pos r p -> pos < p -> starts_on_boundary r = true ->
+  forall ty line l ls, lex1_ok [] rem pos (L1Tok (mktok pos p line ty) r p l ls).
+Proof. intros. simpl. auto. Qed.
+
+Lemma lex_number_ok : forall b s pos line ls,
+  not_ws (cp_at (b :: s)) = true ->
+  lex1_ok [] (b :: s) pos (lex_number false b s (b :: s) pos line ls).
+Proof.
+  intros b s pos line ls Hp. unfold lex_number.
+  destruct (accept_while false not_ws (b :: s) pos) as [r2 p2] eqn:E.
+  destruct (accept_while_first _ _ _ _ _ _ E Hp) as [(x & -> & ->) S].
+  replace (pos + 1 + Z.of_nat (length x) - pos - 1) with (Z.of_nat (length x)) by lia.
+  replace (0 <=? Z.of_nat (length x)) with true by (symmetry; apply Z.leb_le; lia).
+  rewrite Nat2Z.id, take_app, S. simpl. split.
+  - exists (b :: x). split; [reflexivity | simpl length; lia].
+  - repeat split; auto. lia.
+Qed.
+
+Lemma lex_one_ok : forall rem pos line ls, lex1_ok [] rem pos (lex_one false rem pos line ls).
+Proof.
+  intros [|b s] pos line ls; [reflexivity|].
+  unfold lex_one. set (rem := b :: s). set (c := cp_at rem).
+  destruct (next_char false rem pos) as [r1 p1] eqn:N.
+  destruct (next_char_moved _ _ _ _ N) as (M1 & S1 & L1). specialize (L1 ltac:(discriminate)).
+  destruct (c =? 10). { simpl. auto. }
+  destruct (is_whitespace c) eqn:W.
+  { destruct (accept_while false _ r1 p1) as [r2 p2] eqn:A.
+    destruct (accept_while_moved _ _ _ _ _ A) as [M2 S2]. simpl.
+    split; [eapply moved_trans; eauto|]. repeat split; auto. destruct M2 as (x & _ & ->). lia. }
+  destruct (c =? 59). { simpl. auto. }
+  destruct (c =? 34).
+  { destruct (accept_while false _ r1 p1) as [r2 p2] eqn:A.
+    destruct (accept_while_moved _ _ _ _ _ A) as [M2 S2].
+    destruct (next_char false r2 p2) as [r3 p3] eqn:N3.
+    destruct (next_char_moved _ _ _ _ N3) as (M3 & S3 & _). simpl.
+    split; [eapply moved_trans; [eauto | eapply moved_trans; eauto]|]. repeat split; auto.
+    destruct M2 as (x & _ & ->). destruct M3 as (y & _ & ->). lia. }
+  destruct (c =? 35).
+  { destruct (accept_while false _ r1 p1) as [r2 p2] eqn:A.
+    destruct (accept_while_moved _ _ _ _ _ A) as [M2 S2]. simpl.
+    split; [eapply moved_trans; eauto|]. repeat split; auto. destruct M2 as (x & _ & ->). lia. }
+  destruct (is_digit10 c || (c =? 46) || (c =? 45)).
+  { apply lex_number_ok. unfold not_ws. fold rem. fold c. rewrite W. reflexivity. }
+  destruct (is_alphabetic c).
+  { destruct (accept_while false _ r1 p1) as [r2 p2] eqn:A.
+    destruct (accept_while_moved _ _ _ _ _ A) as [M2 S2]. simpl.
+    split; [eapply moved_trans; eauto|]. repeat split; auto. destruct M2 as (x & _ & ->). lia. }
+  exact I.
+Qed.
+
+(** line bookkeeping of one token: the new line start is the old one or the token's end *)
+Lemma lex_one_linestart : forall cm rem pos line ls t r p l ls',
+  lex_one cm rem pos line ls = L1Tok t r p l ls' -> ls' = ls \/ ls' = p.
+Proof.
+  intros cm [|b s] pos line ls t r p l ls' H; [discriminate|].
+  unfold lex_one in H. set (rem := b :: s) in *. set (c := cp_at rem) in *.
+  destruct (next_char cm rem pos) as [r1 p1].
+  destruct (c =? 10). { injection H as <- <- <- <- <-. auto. }
+  destruct (is_whitespace c).
+  { destruct (accept_while cm _ r1 p1) as [r2 p2]. injection H as <- <- <- <- <-. auto. }
+  destruct (c =? 59). { injection H as <- <- <- <- <-. auto. }
+  destruct (c =? 34).
+  { destruct (accept_while cm _ r1 p1) as [r2 p2]. destruct (next_char cm r2 p2) as [r3 p3].
+    injection H as <- <- <- <- <-. auto. }
+  destruct (c =? 35).
+  { destruct (accept_while cm _ r1 p1) as [r2 p2]. injection H as <- <- <- <- <-. auto. }
+  destruct (is_digit10 c || (c =? 46) || (c =? 45)).
+  { unfold lex_number in H. destruct (accept_while cm not_ws rem pos) as [r2 p2].
+    destruct (if 0 <=? p2 - pos - 1 then take (Z.to_nat (p2 - pos - 1)) s else None) as [[sb q]|]; [|discriminate].
+    destruct (starts_on_boundary q); [|discriminate]. injection H as <- <- <- <- <-. auto. }
+  destruct (is_alphabetic c).
+  { destruct (accept_while cm _ r1 p1) as [r2 p2]. injection H as <- <- <- <- <-. auto. }
+  discriminate.
+Qed.
+
+(** * The token stream *)
+Definition ti_ok (src : bytes) (ti : tokinfo) : Prop :=
+  tok_ok src (ti_tok ti) /\ bnd src (ti_linestart ti).
+Definition end_ok (src : bytes) (e : lex_end) : Prop :=
+  match e with
+  | LEof p l ls => bnd src ls
+  | LErr _ _ _ => True
+  | LPanic | LFuel => False
+  end.
+
+Lemma lex_all_ok : forall src f rem pos line ls toks e,
+  at_pos src rem pos -> starts_on_boundary rem = true -> bnd src ls ->
+  (length rem < f)%nat ->
+  lex_all f false rem pos line ls = (toks, e) ->
+  Forall (ti_ok src) toks /\ end_ok src e /\ (length toks <= length rem)%nat.
+Proof.
+  induction f as [|f IH]; intros rem pos line ls toks e AP SB BL LF H; [lia|].
+  simpl in H.
+  pose proof (lex_one_ok rem pos line ls) as OK.
+  pose proof (lex_one_linestart false rem pos line ls) as LS.
+  destruct (lex_one false rem pos line ls) as [|t r p l ls'| |].
+  - injection H as <- <-. split; [constructor|]. split; [exact BL | simpl; lia].
+  - simpl in OK. destruct OK as (M & Lt & S & Ts & Te).
+    pose proof (at_pos_moved _ _ _ _ _ AP M) as AP'.
+    pose proof (at_pos_bnd _ _ _ AP' S) as Bp.
+    pose proof (at_pos_bnd _ _ _ AP SB) as Bs.
+    assert (BL' : bnd src ls') by (destruct (LS _ _ _ _ _ eq_refl) as [-> | ->]; assumption).
+    pose proof (moved_len _ _ _ _ M) as ML.
+    assert (LF' : (length r < f)%nat) by lia.
+    assert (TK : tok_ok src t) by (unfold tok_ok; rewrite Ts, Te; repeat split; auto; lia).
+    destruct (lex_all f false r p l ls') as [ts e'] eqn:R.
+    destruct (IH _ _ _ _ _ _ AP' S BL' LF' R) as (F & E & N).
+    destruct (t_ty t); injection H as <- <-;
+      (split; [first [exact F | constructor; [split; assumption | exact F]] | split; [exact E | simpl length; lia]]).
+  - injection H as <- <-. split; [constructor|]. split; [exact I | simpl; lia].
+  - contradiction.
+Qed.
+
+Lemma valid_starts_on_boundary : forall src, utf8_valid src -> starts_on_boundary src = true.
+Proof.
+  intros [|b s] H; [reflexivity|]. unfold utf8_valid, utf8_validb in H. simpl in H.
+  simpl. unfold is_cont.
+  destruct ((0 <=? b) && (b <? 128)) eqn:A.
+  { apply andb_prop in A. destruct A as [_ A]. apply Z.ltb_lt in A.
+    replace (b <? 192) with true by (symmetry; apply Z.ltb_lt; lia).
+    replace (128 <=? b) with false by (symmetry; apply Z.leb_gt; lia). reflexivity. }
+  destruct ((194 <=? b) && (b <? 224)) eqn:B.
+  { apply andb_prop in B. destruct B as [B _]. apply Z.leb_le in B.
+    replace (b <? 192) with false by (symmetry; apply Z.ltb_ge; lia). rewrite andb_false_r. reflexivity. }
+  destruct ((224 <=? b) && (b <? 240)) eqn:C.
+  { apply andb_prop in C. destruct C as [C _]. apply Z.leb_le in C.
+    replace (b <? 192) with false by (symmetry; apply Z.ltb_ge; lia). rewrite andb_false_r. reflexivity. }
+  destruct ((240 <=? b) && (b <? 245)) eqn:D.
+  { apply andb_prop in D. destruct D as [D _]. apply Z.leb_le in D.
+    replace (b <? 192) with false by (symmetry; apply Z.ltb_ge; lia). rewrite andb_false_r. reflexivity. }
+  discriminate.
+Qed.
+
+Lemma bnd_zero : forall src, starts_on_boundary src = true -> bnd src 0.
+Proof. intros src S. exists [], src. auto. Qed.
+
+(** the repaired lexer on any source that starts on a character boundary *)
+Theorem lex_ok_gen : forall src toks e, starts_on_boundary src = true ->
+  lex false src = (toks, e) ->
+  Forall (ti_ok src) toks /\ end_ok src e /\ (length toks <= length src)%nat.
+Proof.
+  intros src toks e S H. unfold lex, lex_fuel in H.
+  eapply lex_all_ok; [| exact S | apply bnd_zero; exact S | | exact H].
+  - exists []. auto.
+  - lia.
+Qed.
+
+Theorem lex_no_panic : forall src, utf8_valid src -> snd (lex false src) <> LPanic.
+Proof.
+  intros src V. destruct (lex false src) as [toks e] eqn:H.
+  destruct (lex_ok_gen _ _ _ (valid_starts_on_boundary _ V) H) as (_ & E & _).
+  simpl. intros ->. exact E.
+Qed.
+
+(** * Termination for either position unit: a token consumes at least one byte *)
+Lemma skip_conts_len : forall cm s pos, (length (fst (skip_conts cm s pos)) <= length s)%nat.
+Proof.
+  induction s as [|b s IH]; intros pos; simpl; [lia|].
+  destruct (is_cont b); simpl; [specialize (IH (adv cm b pos)); lia | lia].
+Qed.
+Lemma next_char_len : forall cm b s pos, (length (fst (next_char cm (b :: s) pos)) <= length s)%nat.
+Proof. intros. simpl. apply skip_conts_len. Qed.
+Lemma accept_while_len : forall cm pr s pos, (length (fst (accept_while cm pr s pos)) <= length s)%nat.
+Proof.
+  induction s as [|b s IH]; intros pos; simpl; [lia|].
+  destruct (is_cont b); [specialize (IH (adv cm b pos)); lia|].
+  destruct (pr _); [specialize (IH (adv cm b pos)); lia | simpl; lia].
+Qed.
+Lemma next_char_len0 : forall cm s pos, (length (fst (next_char cm s pos)) <= length s)%nat.
+Proof. intros cm [|b s] pos; [simpl; lia|]. pose proof (next_char_len cm b s pos). simpl length in *. lia. Qed.
+
+Lemma lex_one_consumes : forall cm rem pos line ls t r p l ls',
+  lex_one cm rem pos line ls = L1Tok t r p l ls' -> (length r < length rem)%nat.
+Proof.
+  intros cm [|b s] pos line ls t r p l ls' H; [discriminate|].
+  unfold lex_one in H. set (rem := b :: s) in *. set (c := cp_at rem) in *.
+  pose proof (next_char_len cm b s pos) as N. fold rem in N.
+  destruct (next_char cm rem pos) as [r1 p1]. simpl fst in N.
+  assert (AW : forall pr, (length (fst (accept_while cm pr r1 p1)) <= length s)%nat)
+    by (intros pr; pose proof (accept_while_len cm pr r1 p1); lia).
+  destruct (c =? 10). { injection H as <- <- <- <- <-. simpl; lia. }
+  destruct (is_whitespace c) eqn:W.
+  { specialize (AW (fun c => is_ascii_whitespace c && negb (c =? 10))).
+    destruct (accept_while cm _ r1 p1) as [r2 p2]. injection H as <- <- <- <- <-. simpl in *; lia. }
+  destruct (c =? 59). { injection H as <- <- <- <- <-. simpl; lia. }
+  destruct (c =? 34).
+  { specialize (AW (fun c => negb (c =? 34))).
+    destruct (accept_while cm _ r1 p1) as [r2 p2]. pose proof (next_char_len0 cm r2 p2) as N3.
+    destruct (next_char cm r2 p2) as [r3 p3].
+    injection H as <- <- <- <- <-. simpl in *; lia. }
+  destruct (c =? 35).
+  { specialize (AW (fun c => negb (c =? 10))).
+    destruct (accept_while cm _ r1 p1) as [r2 p2]. injection H as <- <- <- <- <-. simpl in *; lia. }
+  destruct (is_digit10 c || (c =? 46) || (c =? 45)).
+  { unfold lex_number in H.
+    assert (Hf : (length (fst (accept_while cm not_ws rem pos)) <= length s)%nat).
+    { unfold rem at 1. simpl. destruct (is_cont b); [apply accept_while_len|].
+      fold rem. fold c. unfold not_ws at 1. rewrite W. simpl. apply accept_while_len. }
+    destruct (accept_while cm not_ws rem pos) as [r2 p2]. simpl in Hf.
+    destruct (if 0 <=? p2 - pos - 1 then take (Z.to_nat (p2 - pos - 1)) s else None) as [[sb q]|]; [|discriminate].
+    destruct (starts_on_boundary q); [|discriminate]. injection H as <- <- <- <- <-. simpl; lia. }
+  destruct (is_alphabetic c).
+  { specialize (AW not_ws).
+    destruct (accept_while cm _ r1 p1) as [r2 p2]. injection H as <- <- <- <- <-. simpl in *; lia. }
+  discriminate.
+Qed.
+
+Lemma lex_all_fuel : forall cm f rem pos line ls, (length rem < f)%nat ->
+  snd (lex_all f cm rem pos line ls) <> LFuel.
+Proof.
+  induction f as [|f IH]; intros rem pos line ls L; [lia|]. simpl.
+  pose proof (lex_one_consumes cm rem pos line ls) as C.
+  destruct (lex_one cm rem pos line ls) as [|t r p l ls'| |]; try (simpl; discriminate).
+  specialize (C _ _ _ _ _ eq_refl).
+  specialize (IH r p l ls' ltac:(lia)).
+  destruct (lex_all f cm r p l ls') as [ts e]. destruct (t_ty t); simpl in *; exact IH.
+Qed.
+
+(** the lexer terminates within [length src + 1] tokens, original and repaired position counting alike *)
+Theorem lex_terminates : forall cm src, snd (lex cm src) <> LFuel.
+Proof. intros. unfold lex, lex_fuel. apply lex_all_fuel. lia. Qed.
